@@ -1307,7 +1307,8 @@ func c03Case(t *testing.T, h *vHarness, idx int, steps int) {
 	// combination); the case's PRNG stream does not depend on it
 	// (every second block of four cases that run with the runtime quota off = a quarter of all cases, every switch
 	// combination of them).  Gate on + runtime quota ON is off by default: there the unchanged tree breaks RuntimeOK
-	// (C03:runtime-above-max, then C03:used-above-max; see props/C03.json level_note) - VERIF_C03_GATE_RT=1 switches it on.
+	// (known finding C03:limit-exceeded:guarantee-gate-runtime, see limFP and props/C03.json level_note) - VERIF_C03_GATE_RT=1 switches it on;
+	// harness guarantee runs a small directed part of it by default.
 	gu := ((idx>>2)&1 == 1 && (idx&1 == 0 || c03GateRT())) || c03ForceGateRT
 	h.Op("dims %d", c03D)
 	defer c03GuaranteeGate(t, h, gu)()
